@@ -389,7 +389,7 @@ Proof.
       - ret. }
     destruct ignorer as [ig|]; [apply S_skipto_ign; [exact Hi|exact Hin]|apply Hin]. }
   destruct failon as [fo|]; [|exact Hafter].
-  apply S_can_parse_next; [exact Hf|]. intros [|]; [apply Hkk|exact Hafter].
+  apply S_can_parse_next; [exact Hf|]. intros [|]; [apply S_fail; assumption|exact Hafter].
 Qed.
 (* ---- Each ---- *)
 Lemma wf_named_copy b n : wf b = true -> wf (named_copy b n) = true.
